@@ -52,11 +52,10 @@ func prod(lists ...[]float64) [][]float64 {
 	return out
 }
 
-func inf(float64s []float64) float64 { return math.Inf(1) }
-func allMoments(p []float64) float64  { return math.Inf(1) }
-func negInf(p []float64) float64      { return math.Inf(-1) }
-func posInf(p []float64) float64      { return math.Inf(1) }
-func zero(p []float64) float64        { return 0 }
+func allMoments(p []float64) float64 { return math.Inf(1) }
+func negInf(p []float64) float64     { return math.Inf(-1) }
+func posInf(p []float64) float64     { return math.Inf(1) }
+func zero(p []float64) float64       { return 0 }
 
 // locScale pairs used where a full L x C product would only repeat an affine map.
 func locScalePairs(thorough bool) [][]float64 {
